@@ -474,6 +474,7 @@ func runKS(c KSCase, rec *h.Rec) error {
 		}
 		if norm.Cmp(bound) > 0 {
 			key := fmt.Sprintf("C04:%s:noise-above-bound", tag)
+			generic := key
 			if ciModDownOverflow(s, c.Key, lvl) {
 				key = keyCIModDown
 			} else if digitsShort(s, c.Key, lvl) {
@@ -483,6 +484,9 @@ func runKS(c KSCase, rec *h.Rec) error {
 			}
 			msg := fmt.Sprintf("|Dec(out) - expected|_inf = 2^%d > bound 2^%d (log2 Q = %d, N=%d, key=%+v, ct level %d, receiver level %d, galEl=%d, IsNTT=%v/NTTFlag=%v, op=%s)",
 				norm.BitLen(), bound.BitLen(), Q.BitLen(), N, c.Key, lvl, outLevel, galEl, isNTT, s.NTT, tag)
+			if !h.IsKnown(key) {
+				key = generic // the class of a repaired finding is not special any more: report under the call site's own key
+			}
 			if rec.Known(key, msg) {
 				rec.Class("known=" + key)
 				return errKnown
